@@ -9,7 +9,7 @@ from ..cfg import CFG
 from ..model import AnchorError, Program, dotted, kw, last_attr, norm, parent, walk_no_nested
 from ..report import Check
 from .c12 import grammar, visitor_methods
-from .common import calls_in, guards_of, local_assignments, returns_of, stmt_of
+from .common import calls_in, guards_of, local_assignments, need_locals, returns_of, stmt_of
 
 
 def _unite_calls(fn: ast.AST) -> List[ast.Call]:
@@ -80,6 +80,7 @@ def r01_a(prog: Program, chk: Check) -> None:
     chk.ob("R01.a", f"{m}::NameCheckVisitor.visit_Compare::join", ok, prog.site(m, fn), f"a chained comparison must unite the result of every link: {why}")
     # binop over a union on the left
     fn = ci.methods["_visit_binop_internal"]
+    need_locals(fn, "left")
     u = [c for c in _unite_calls(fn) if c.args and isinstance(c.args[0], ast.Starred)]
     ok, why = (False, "no unite_values(*possibilities)")
     if u:
@@ -123,6 +124,7 @@ def r01_a(prog: Program, chk: Check) -> None:
                             ok = True
         chk.ob("R01.a", f"{m}::NameCheckVisitor.{q}::join", ok, prog.site(m, fn), f"{what} must unite the result for every member of the union (unfiltered comprehension over the members)")
     fn = prog.func("implementation", "flatten_unions")
+    need_locals(fn, "results", "value_lists", "val")
     t = norm(fn)
     comps = [x for x in walk_no_nested(fn) if isinstance(x, ast.ListComp)]
     ok = "ImplReturn.unite_impl_rets(results)" in t and any("product(*value_lists)" in norm(c.generators[0].iter) and not c.generators[0].ifs for c in comps) and any("flatten_values(val" in norm(c.elt) and not c.generators[0].ifs for c in comps)
